@@ -74,10 +74,56 @@ def check(tier='quick', seed=0):
             'rejected exactly when Python rejects the hierarchy')
     rule = (f'every hierarchy of <= {nmax} namespaces in definition order, each with every ordered list of '
             'distinct earlier namespaces as parents; every namespace linearized; distinct = distinct results')
+    second = _family_tree(4)
     if bad:
         return [dict(name=name, kind='bounded', verdict='refuted', evaluations=n_eval, witness=bad,
                      distinct=len(distinct), rule=rule, samples=samples, exhaustive=True,
-                     detail='the real C3.mro disagrees with Python')]
+                     detail='the real C3.mro disagrees with Python'), second]
     return [dict(name=name, kind='bounded', verdict='proved', evaluations=n_eval, distinct=len(distinct),
                  rule=rule, samples=samples, exhaustive=True,
-                 detail=f'{n_eval} linearizations, exhaustive over the stated bound')]
+                 detail=f'{n_eval} linearizations, exhaustive over the stated bound'), second]
+
+
+def _family_tree(nmax):
+    """the real WorkflowConfig.compute_family_tree (which feeds C3 from the [runtime] section: implicit
+    inheritance from root, the result stored per namespace) against Python's MRO"""
+    from cylc.flow.config import WorkflowConfig
+    from cylc.flow.exceptions import WorkflowConfigError
+    n_eval, bad, samples = 0, [], []
+    for n in range(1, nmax + 1):
+        for tree in _hierarchies(n):
+            # every namespace inherits from root implicitly (no parents) - as in a [runtime] section
+            full = {'root': []}
+            for k, v in tree.items():
+                full[k] = list(v) if v else ['root']
+            want = _python_mro(full)
+            cfg = WorkflowConfig.__new__(WorkflowConfig)
+            cfg.cfg = {'runtime': {'root': {}}}
+            for k, v in tree.items():
+                cfg.cfg['runtime'][k] = {'inherit': list(v)} if v else {}
+            cfg.runtime = {'parents': {}, 'linearized ancestors': {}, 'first-parent ancestors': {},
+                           'descendants': {}, 'first-parent descendants': {}}
+            n_eval += 1
+            try:
+                cfg.compute_family_tree()
+                got = {k: list(v) for k, v in cfg.runtime['linearized ancestors'].items()}
+            except WorkflowConfigError:
+                got = None
+            if any(v is None for v in want.values()):
+                ok = got is None
+            else:
+                ok = got == want
+            if not ok and len(bad) < 5:
+                bad.append(dict(runtime_inherit=tree, linearized_ancestors=got, python=want))
+            if len(samples) < 2 and n == 3 and got and any(len(v) == 4 for v in got.values()):
+                samples.append(dict(runtime_inherit=tree, linearized_ancestors=got))
+    name = ('bounded::WorkflowConfig.compute_family_tree stores for every namespace the linearization Python '
+            'computes (implicit inheritance from root), and refuses the section exactly when Python does')
+    rule = (f'every [runtime] section of <= {nmax} namespaces besides root, each inheriting from every ordered '
+            'list of distinct earlier namespaces (root when none); the real method on a bare WorkflowConfig; '
+            'exhaustive inside that box')
+    base = dict(name=name, kind='bounded', evaluations=n_eval, distinct=n_eval, rule=rule, samples=samples,
+                exhaustive=True)
+    if bad:
+        return dict(base, verdict='refuted', witness=bad, detail=f'{len(bad)} sections differ')
+    return dict(base, verdict='proved', detail=f'{n_eval} sections')
